@@ -160,6 +160,15 @@ _ext("C16", "all-paths rule: a frame line shows the frame's name and its Args th
 _ext("C17", "template data: the page named after the receiver renders the receiver")
 _ext("C18", "map-key rule on the prefix helpers; result roles of isGoModule; the skip tests use their own tables")
 _ext("C19", "special renderings (<nil>, _, pseudo-name) exist on some path; named types are not taken for map/chan")
+# round 8 additions
+_ext("C02", "exit-status rule: process reports success only at end of input")
+_ext("C03", "nil-test dominance for optional syntax-tree pointers and for the declaration found for a frame (augmentation runs inside ScanSnapshot)")
+_ext("C06", "file-creation rule: report files are truncated when opened")
+_ext("C10", "error identity through readLine")
+_ext("C13", "key order of Signature.less: stacks before flags")
+_ext("C17", "no package-level state written by the rendering helpers (points-to)")
+_ext("C18", "all-frames rule on the file list; components of a path are built from runes or substrings")
+_ext("C19", "nil-test dominance for optional syntax-tree pointers")
 for k in list(CLAIMED): NA.pop(k, None)
 try:
     exec(open(os.path.join(V, "tools", "manifest_table.py")).read())
